@@ -153,6 +153,12 @@ func TestC14(t *testing.T) {
 			initSize = g.MaxSize
 		}
 		init.Size, init.Dist, init.Seed = initSize, rapid.IntRange(1, 3).Draw(t, "init_dist"), rapid.Uint64Range(0, 1000).Draw(t, "init_seed")
+		// a quarter of the cases build the instance the way `serve ftp` does: write permission
+		// implies read permission, write-only handles can be read
+		if rapid.IntRange(0, 3).Draw(t, "wpir") == 0 {
+			cfg.WPIR = true
+			live.S.Class("write_perm_implies_read_perm")
+		}
 		exists := rapid.IntRange(0, 9).Draw(t, "exists") > 0
 		flag := rapid.SampledFrom([]int{os.O_RDONLY, os.O_WRONLY, os.O_RDWR, os.O_RDWR, os.O_RDWR}).Draw(t, "acc")
 		for _, b := range []int{os.O_CREATE, os.O_TRUNC, os.O_APPEND} {
